@@ -118,5 +118,41 @@ pub fn c31(out: &mut Out, ex: &mut Exec, seed: u64, thorough: bool) {
         out.nontrivial += 1;
         if out.samples.len() < 2 { let mut s = Json::obj(); s.set("config", Json::Arr(v.iter().take(6).map(|x| Json::s(x.chars().take(100).collect::<String>())).collect())); s.set("final", Json::s(r1[r1.len() - 2].clone())); out.sample(s); }
     }
-    out.rule = "generated programs with keyboard input and a seeded timer over an inclusive or an end-exclusive range (interrupt handler = RTI), machine initialised with Seeded{seed} (even cases; the full seeded image is dumped to the model) or Known{value} (odd cases; `sim known` checks every register and every word outside the OS image and the I/O page equals the value, uninitialised); 30-90 single steps then run to halt; run twice in independent interpreters: every op's digest (registers, PC, PSR, changed memory, interrupts via frames, output) must be identical, and run 1 is compared with the model".into();
+    // seeded timers through their whole configuration history (implementation only): two devices built with the same seed
+    // and driven through the same sequence of range changes, exact counts, resets, enables and polls must agree after
+    // every operation — also when the timer starts as an exact count and is widened later
+    {
+        use lc3_ensemble::sim::device::{ExternalDevice, TimerDevice};
+        let m = if thorough { 4_000 } else { 200 };
+        for k in 0..m {
+            let tseed = rng.below(1 << 40);
+            let shape = k % 4;
+            let (a, b) = { let a = 1 + rng.below(9) as u32; (a, a + 1 + rng.below(9) as u32) };
+            let mk = || -> TimerDevice { match shape { 0 => TimerDevice::new(Some(tseed), a..=a, 0x81, 4), 1 => TimerDevice::new(Some(tseed), a..=b, 0x81, 4), 2 => TimerDevice::new(Some(tseed), a..b, 0x81, 4), _ => TimerDevice::new(Some(tseed), 0..=b, 0x81, 4) } };
+            let (mut t1, mut t2) = (mk(), mk());
+            t1.enabled = true; t2.enabled = true;
+            let mut ops = vec![];
+            for _ in 0..20 + rng.below(40) { ops.push((rng.below(8), 1 + rng.below(12) as u32, rng.below(10) as u32)); }
+            let mut trace = format!("seed={tseed} shape={shape} a={a} b={b}");
+            let mut bad = None;
+            for (i, (op, x, y)) in ops.iter().enumerate() {
+                let f = |t: &mut TimerDevice| -> String { match op {
+                    0 => { t.set_range(*x..=*x + *y); "range".into() }
+                    1 => { t.set_range(*x..*x + *y + 1); "range-open".into() }
+                    2 => { t.set_exact(*x); "exact".into() }
+                    3 => { t.reset_remaining(); "reset".into() }
+                    4 => { t.io_reset(); "ioreset".into() }
+                    _ => { match t.poll_interrupt() { Some(_) => "fire".into(), None => "none".into() } } } };
+                let (r1, r2) = (f(&mut t1), f(&mut t2));
+                trace.push_str(&format!(" {}:{}", r1, t1.get_remaining()));
+                if r1 != r2 || t1.get_remaining() != t2.get_remaining() { bad = Some((i, r1, r2, t1.get_remaining(), t2.get_remaining())); break; }
+            }
+            out.evaluations += 1;
+            match bad {
+                Some((i, r1, r2, g1, g2)) => out.fail(out.lines, format!("two timers with the same seed and history diverge at op {i}: {r1}/{g1} vs {r2}/{g2} :: {trace}"), trace.clone()),
+                None => out.hist.hit(match shape { 0 => "twin_timers_exact_then_widened", 1 => "twin_timers_inclusive", 2 => "twin_timers_half_open", _ => "twin_timers_from_zero" }),
+            }
+        }
+    }
+    out.rule = "twin seeded timers (exact-then-widened, inclusive, half-open, from zero) driven through identical random histories of set_range / set_exact / reset / io_reset / poll must agree after every operation; generated programs with keyboard input and a seeded timer over an inclusive or an end-exclusive range (interrupt handler = RTI), machine initialised with Seeded{seed} (even cases; the full seeded image is dumped to the model) or Known{value} (odd cases; `sim known` checks every register and every word outside the OS image and the I/O page equals the value, uninitialised); 30-90 single steps then run to halt; run twice in independent interpreters: every op's digest (registers, PC, PSR, changed memory, interrupts via frames, output) must be identical, and run 1 is compared with the model".into();
 }
